@@ -12,7 +12,8 @@
 
    What the writer emits (transcribed as it is):
    * ONE leaf node for every number of chunks (no split, no internal nodes): signature "TREE", node type 1, level 0,
-     entries used = uint16(len(entries)) (so the count is reduced modulo 65536), both sibling addresses
+     entries used = uint16(len(entries)) (more than 65535 entries are refused since /repo 18c9d53; before that commit
+     the count was stored modulo 65536 - the switch `rep` below), both sibling addresses
      0xFFFFFFFFFFFFFFFF, then key_0 child_0 ... key_{n-1} child_{n-1} key_n.  The node is allocated at its used size
      (24 + (n+1)*keySize + n*8 bytes), not at the capacity 2K the format asks for (KNOWN_FINDINGS
      C05-btree1-node-truncated / C05-btree1-node-over-capacity; neither matters to the reader below).
@@ -29,8 +30,15 @@
    io.ReaderAt.ReadAt of exactly n bytes (short read = error).  int64(address) conversions: an address above
    MaxInt64 is a negative offset, which ReadAt rejects.
 
+   The switch `rep : bool` (first argument of every function that depends on it): true = the code since /repo commit
+   18c9d53 "fix: keep the chunk B-tree entry count within its 16-bit field" (ParseBTreeV1Node sizes Keys with
+   int(EntriesUsed)+1; WriteToFile refuses more than MaxChunkBTreeEntries = 65535 entries; writeChunkedData checks the
+   chunk count before the first chunk is written), false = the code before it (Keys sized with EntriesUsed+1 in uint16,
+   count stored modulo 65536, no check).  tools/props/c01unit.py reads the switch from the source tree under test;
+   the theorems of Props/C01.v are about rep = true (index_repaired), the _refuted ones about rep = false.
+
    Node invariant of ParseBTreeV1Node: len(Children) = EntriesUsed and len(Keys) = EntriesUsed + 1 (or both empty
-   when EntriesUsed = 0; EntriesUsed = 65535 never yields a node, see parse_entries).  The loops `for i := 0; i < int(node.EntriesUsed); i++ { node.Keys[i] .. node.Children[i] }`
+   when EntriesUsed = 0; with rep = false EntriesUsed = 65535 never yields a node, see parse_entries).  The loops `for i := 0; i < int(node.EntriesUsed); i++ { node.Keys[i] .. node.Children[i] }`
    of collectAllChunks are therefore structural over the children list here.
    int arithmetic on sizes (keySize, dataSize <= 65535 * (8 + 8*255 + 255) + ..) cannot overflow 64 bits and is left
    unwrapped; uint64 address arithmetic is wrapped.
@@ -41,6 +49,9 @@ Definition U64MAX : N := 18446744073709551615.
 Definition MAXINT64 : N := 9223372036854775807.
 Definition MAX_CHUNK : N := 1073741824.            (* utils.MaxChunkSize *)
 Definition SIG_TREE : bytes := [84; 82; 69; 69].
+Definition MAX_ENTRIES : N := 65535.               (* structures.MaxChunkBTreeEntries (since 18c9d53) *)
+(* the tree under test is the repaired one (checked against the source by tools/props/c01unit.py source_switch) *)
+Definition index_repaired : bool := true.
 
 (* ---------------------------------------------------------------------------------------------- *)
 (* The file                                                                                       *)
@@ -111,41 +122,66 @@ Definition node_header (n : N) : bytes :=
 Definition serialize_leaf (dim : nat) (es : list wentry) : bytes :=
   node_header (N.of_nat (length es)) ++ flat_map enc_entry es ++ enc_key 0 0 (repeat U64MAX dim).
 
+(* A writer call is modelled with the state it leaves behind: (file, end of file of the allocator, result).  A refused
+   call returns the state it was given exactly when the Go code has neither allocated nor written before returning
+   the error. *)
+Definition wstate (A : Type) : Type := (bytes * N * outcome A)%type.
+Definition st_result {A} (s : wstate A) : outcome (bytes * N * A) :=
+  let '(f, eof, r) := s in
+  match r with Ok a => Ok (f, eof, a) | Err => Err | Panic => Panic end.
+
 (* AddChunkWithSize for every entry (dimensionality check), then WriteToFile with the allocator's end of file:
-   result = (file, new end of file, root address) *)
-Definition write_index (dim : nat) (es : list wentry) (f : bytes) (eof : N) : outcome (bytes * N * N) :=
-  if negb (forallb (fun e => Nat.eqb (length (w_coord e)) dim) es) then Err
+   empty list refused; rep: more than MaxChunkBTreeEntries refused; sort, serialize, Allocate, WriteAtAddress.
+   Result = root address.  Every error return precedes Allocate. *)
+Definition write_index_st (rep : bool) (dim : nat) (es : list wentry) (f : bytes) (eof : N) : wstate N :=
+  if negb (forallb (fun e => Nat.eqb (length (w_coord e)) dim) es) then (f, eof, Err)
   else match es with
-       | [] => Err
+       | [] => (f, eof, Err)
        | _ =>
+           if rep && (MAX_ENTRIES <? N.of_nat (length es)) then (f, eof, Err)
+           else
            let buf := serialize_leaf dim (sort_entries es) in
            match alloc eof (blen buf) with
-           | None => Err
-           | Some (addr, eof') => Ok (write_at f addr buf, eof', addr)
+           | None => (f, eof, Err)
+           | Some (addr, eof') => (write_at f addr buf, eof', Ok addr)
            end
        end.
+(* (file, new end of file, root address) of a successful call *)
+Definition write_index (rep : bool) (dim : nat) (es : list wentry) (f : bytes) (eof : N) : outcome (bytes * N * N) :=
+  st_result (write_index_st rep dim es f eof).
 
 (* the chunk loop of writeChunkedData: chunks = (GetChunkOffset coord, chunk bytes after the filter pipeline) in
-   the order of the linear chunk index; each is allocated, written, and added with uint32(len) *)
-Fixpoint write_chunk_loop (chunks : list (list N * bytes)) (f : bytes) (eof : N) (acc : list wentry)
-  : outcome (bytes * N * list wentry) :=
+   the order of the linear chunk index; each is allocated, written, and added with uint32(len).  A failing Allocate
+   leaves the chunks written so far in the file. *)
+Fixpoint write_chunk_loop_st (chunks : list (list N * bytes)) (f : bytes) (eof : N) (acc : list wentry)
+  : wstate (list wentry) :=
   match chunks with
-  | [] => Ok (f, eof, acc)
+  | [] => (f, eof, Ok acc)
   | (key, data) :: r =>
       match alloc eof (blen data) with
-      | None => Err
+      | None => (f, eof, Err)
       | Some (addr, eof') =>
-          write_chunk_loop r (write_at f addr data) eof' (acc ++ [(key, addr, wrap32 (blen data))])
+          write_chunk_loop_st r (write_at f addr data) eof' (acc ++ [(key, addr, wrap32 (blen data))])
       end
   end.
+Definition write_chunk_loop (chunks : list (list N * bytes)) (f : bytes) (eof : N) (acc : list wentry)
+  : outcome (bytes * N * list wentry) := st_result (write_chunk_loop_st chunks f eof acc).
 
-(* writeChunkedData without filters: (file, end of file, B-tree address) *)
-Definition write_chunked_file (dims cdims : list N) (esz : N) (data : bytes) (f : bytes) (eof : N)
-  : outcome (bytes * N * N) :=
-  if negb (lenN data =? vol dims esz) then Err
+(* writeChunkedData without filters; result = B-tree address.  rep: GetTotalChunks() > MaxChunkBTreeEntries is
+   refused before the loop (nothing allocated, nothing written). *)
+Definition write_chunked_file_st (rep : bool) (dims cdims : list N) (esz : N) (data : bytes) (f : bytes) (eof : N)
+  : wstate N :=
+  if negb (lenN data =? vol dims esz) then (f, eof, Err)
+  else if rep && (MAX_ENTRIES <? total_chunks (num_chunks dims cdims)) then (f, eof, Err)
   else
-    '(f1, eof1, es) <- write_chunk_loop (write_chunks dims cdims esz data) f eof [];;
-    write_index (length dims) es f1 eof1.
+    match write_chunk_loop_st (write_chunks dims cdims esz data) f eof [] with
+    | (f1, eof1, Ok es) => write_index_st rep (length dims) es f1 eof1
+    | (f1, eof1, Err) => (f1, eof1, Err)
+    | (f1, eof1, Panic) => (f1, eof1, Panic)
+    end.
+(* (file, end of file, B-tree address) of a successful call *)
+Definition write_chunked_file (rep : bool) (dims cdims : list N) (esz : N) (data : bytes) (f : bytes) (eof : N)
+  : outcome (bytes * N * N) := st_result (write_chunked_file_st rep dims cdims esz data f eof).
 
 (* ---------------------------------------------------------------------------------------------- *)
 (* Reader: ParseBTreeV1Node                                                                       *)
@@ -182,8 +218,9 @@ Fixpoint parse_coords (n : nat) (cs : list N) (data : bytes) (off : N) : outcome
   end.
 
 (* for i := 0; i <= EntriesUsed; i++: key i, and child i when i < EntriesUsed; k = EntriesUsed - i.
-   klen = len(node.Keys): Keys is made with EntriesUsed+1 elements COMPUTED IN uint16, so for EntriesUsed = 65535 it is
-   empty and `node.Keys[i] = key` is an index panic in the first iteration (after key 0 has been decoded). *)
+   klen = len(node.Keys) (key_slots): before 18c9d53 Keys was made with EntriesUsed+1 elements COMPUTED IN uint16, so for
+   EntriesUsed = 65535 it was empty and `node.Keys[i] = key` an index panic in the first iteration (after key 0 has
+   been decoded); since then int(EntriesUsed)+1 and the guard never fires. *)
 Fixpoint parse_entries (k : nat) (i klen : N) (ndims : nat) (osz : N) (cdims : list N) (data : bytes) (off : N)
   : outcome (list ckey * list N) :=
   let keySize := 8 + 8 * N.of_nat ndims in
@@ -206,7 +243,10 @@ Fixpoint parse_entries (k : nat) (i klen : N) (ndims : nat) (osz : N) (cdims : l
           Ok ((sc, nb, fm) :: fst r, child :: snd r)
     end.
 
-Definition parse_node (f : bytes) (address osz : N) (ndims : nat) (cdims : list N) : outcome bnode :=
+(* len(node.Keys) *)
+Definition key_slots (rep : bool) (eu : N) : N := if rep then eu + 1 else wrap16 (eu + 1).
+
+Definition parse_node (rep : bool) (f : bytes) (address osz : N) (ndims : nat) (cdims : list N) : outcome bnode :=
   let headerSize := 8 + osz * 2 in
   match read_at f address headerSize with
   | None => Err
@@ -228,7 +268,7 @@ Definition parse_node (f : bytes) (address osz : N) (ndims : nat) (cdims : list 
           match read_bytes_at f (wrap64 (address + headerSize)) dataSize with
           | None => Err
           | Some data =>
-              r <- parse_entries (N.to_nat eu) 0 (wrap16 (eu + 1)) ndims osz cdims data 0;;
+              r <- parse_entries (N.to_nat eu) 0 (key_slots rep eu) ndims osz cdims data 0;;
               Ok (mk_bnode ty lv eu left right (fst r) (snd r))
           end
   end.
@@ -245,7 +285,7 @@ Definition centry := (ckey * N)%type.
 
 (* collectAllChunks(node, visited): same recursion as Model/RobustTerm.v bt_collect (level guard, visited set
    threaded through the whole walk) with the node graph given by parse_node on the file and the entries returned *)
-Fixpoint collect (f : bytes) (osz : N) (cdims : list N) (fuel : nat) (level : N) (keys : list ckey)
+Fixpoint collect (rep : bool) (f : bytes) (osz : N) (cdims : list N) (fuel : nat) (level : N) (keys : list ckey)
          (children visited : list N) : cres (list centry * list N) :=
   match fuel with
   | O => CFuel
@@ -257,12 +297,12 @@ Fixpoint collect (f : bytes) (osz : N) (cdims : list N) (fuel : nat) (level : N)
            | [] => COk (acc, visited)
            | c :: r =>
                if memN c visited then CErr
-               else match parse_node f c osz (length cdims) cdims with
+               else match parse_node rep f c osz (length cdims) cdims with
                     | Err => CErr
                     | Panic => CPanic
                     | Ok nd =>
                         if level <=? n_level nd then CErr
-                        else match collect f osz cdims fuel' (n_level nd) (n_keys nd) (n_children nd) (c :: visited) with
+                        else match collect rep f osz cdims fuel' (n_level nd) (n_keys nd) (n_children nd) (c :: visited) with
                              | COk (ch, v') => each r (acc ++ ch) v'
                              | CErr => CErr
                              | CPanic => CPanic
@@ -274,8 +314,8 @@ Fixpoint collect (f : bytes) (osz : N) (cdims : list N) (fuel : nat) (level : N)
 
 (* NodeLevel is a uint8 and strictly decreases along the descent: 256 units of fuel (same recursion as bt_collect,
    C07_btree_descent_terminates; the correspondence node_graph / tres_of below is stated, not proved) *)
-Definition collect_all_chunks (f : bytes) (osz : N) (cdims : list N) (nd : bnode) : cres (list centry) :=
-  match collect f osz cdims 256 (n_level nd) (n_keys nd) (n_children nd) [] with
+Definition collect_all_chunks (rep : bool) (f : bytes) (osz : N) (cdims : list N) (nd : bnode) : cres (list centry) :=
+  match collect rep f osz cdims 256 (n_level nd) (n_keys nd) (n_children nd) [] with
   | COk (ch, _) => COk ch
   | CErr => CErr
   | CPanic => CPanic
@@ -283,16 +323,16 @@ Definition collect_all_chunks (f : bytes) (osz : N) (cdims : list N) (nd : bnode
   end.
 
 (* ParseBTreeV1Node(root) + CollectAllChunks, as every read path starts *)
-Definition read_index (f : bytes) (root osz : N) (cdims : list N) : cres (list centry) :=
-  match parse_node f root osz (length cdims) cdims with
+Definition read_index (rep : bool) (f : bytes) (root osz : N) (cdims : list N) : cres (list centry) :=
+  match parse_node rep f root osz (length cdims) cdims with
   | Err => CErr
   | Panic => CPanic
-  | Ok nd => collect_all_chunks f osz cdims nd
+  | Ok nd => collect_all_chunks rep f osz cdims nd
   end.
 
 (* the abstract node graph of C07 that this file induces *)
-Definition node_graph (f : bytes) (osz : N) (cdims : list N) (a : N) : option (N * list N) :=
-  match parse_node f a osz (length cdims) cdims with
+Definition node_graph (rep : bool) (f : bytes) (osz : N) (cdims : list N) (a : N) : option (N * list N) :=
+  match parse_node rep f a osz (length cdims) cdims with
   | Ok nd => Some (n_level nd, n_children nd)
   | _ => None
   end.
@@ -330,9 +370,9 @@ Fixpoint place_chunks (f : bytes) (dims cdims : list N) (esz : N) (chunks : list
            end
   end.
 
-Definition read_chunked_file (f : bytes) (root osz : N) (dims cdims : list N) (esz : N) : cres bytes :=
+Definition read_chunked_file (rep : bool) (f : bytes) (root osz : N) (dims cdims : list N) (esz : N) : cres bytes :=
   if Nat.ltb (length cdims) (length dims) then CErr
-  else match parse_node f root osz (length cdims) cdims with
+  else match parse_node rep f root osz (length cdims) cdims with
        | Err => CErr
        | Panic => CPanic
        | Ok nd =>
@@ -342,7 +382,7 @@ Definition read_chunked_file (f : bytes) (root osz : N) (dims cdims : list N) (e
            else
              let totalBytes := total * esz in
              if negb (validate_size totalBytes (MAX_CHUNK * 1024)) then CErr
-             else match collect_all_chunks f osz cdims nd with
+             else match collect_all_chunks rep f osz cdims nd with
                   | COk chunks => place_chunks f dims cdims esz chunks (zerosN totalBytes)
                   | CErr => CErr
                   | CPanic => CPanic
@@ -389,13 +429,24 @@ Fixpoint distinct_coords (es : list wentry) : bool :=
   | e :: r => negb (existsb (fun x => coords_eqb (w_coord x) (w_coord e)) r) && distinct_coords r
   end.
 
-(* preconditions of the index round trip: non-empty, well-formed entries, different coordinates, at most 65534
-   entries (65535: the reader panics, 65536 and more: the 16-bit count wraps; Proofs/ChunkIndex.v index_*_refuted),
-   positive chunk extents of the same rank, and the node ends below 2^63 *)
-Definition index_pre (cdims : list N) (es : list wentry) (eof : N) : bool :=
+(* well-formed input of the index writer/reader pair: non-empty, well-formed entries, different coordinates, positive
+   chunk extents of the same rank, and the node ends below 2^63 (file offsets are int64) *)
+Definition index_wf (cdims : list N) (es : list wentry) (eof : N) : bool :=
   negb (Nat.eqb (length es) 0) && forallb (entry_ok (length cdims)) es && distinct_coords es
-  && (N.of_nat (length es) <? 65535) && all_pos cdims
+  && all_pos cdims
   && (eof + blen (serialize_leaf (length cdims) es) <=? MAXINT64).
+(* the number of entries the single leaf can hold: MaxChunkBTreeEntries for the repaired code (more: refused by the
+   writer, nothing written - index_refused_unchanged); 65534 before 18c9d53 (65535: the reader panicked, 65536 and
+   more: the 16-bit count wrapped; Proofs/ChunkIndex.v index_*_refuted) *)
+Definition index_capacity (rep : bool) : N := if rep then MAX_ENTRIES else 65534.
+Definition index_pre (rep : bool) (cdims : list N) (es : list wentry) (eof : N) : bool :=
+  index_wf cdims es eof && (N.of_nat (length es) <=? index_capacity rep).
+
+(* bytes writeChunkedData appends to the file: every padded chunk and the index node *)
+Definition chunked_file_growth (dims cdims : list N) (esz : N) : N :=
+  let n := total_chunks (num_chunks dims cdims) in
+  let r := N.of_nat (length dims) in
+  n * vol cdims esz + (24 + n * (16 + 8 * r) + (8 + 8 * r)).
 
 (* the entries writeChunkedData builds for a data set, by the chunk loop from the end of file eof0 *)
 Fixpoint chunk_addrs (sizes : list N) (eof : N) : list N :=
